@@ -423,8 +423,10 @@ func (m *SModel) gc() {
 			delete(m.present, i)
 		}
 	}
+	// index entries survive for everything that is kept (tagged nodes, kept referrers and the
+	// manifests nested under them); entries of collected content go
 	for i := range m.indexed {
-		if !(m.isTagged(i) || kept[i]) {
+		if !keep[i] {
 			delete(m.indexed, i)
 		}
 	}
